@@ -75,6 +75,13 @@ def _table():
             "scalar", "shape_d", "shape_N", "shape_N_1", "shape_1_d", "shape_N_d_1", "shape_N_plus_1_d")
         for c in sstd:
             add("loss_timeseries", fact, "std", c)
+        if fact != "isotropic":
+            # states with several pytree leaves: the noise container is checked leaf by leaf, so a container that is wrong in
+            # *some* leaves must be rejected as well (seed C20-s4 raised only when every leaf was wrong)
+            for ent in ("loss_terminal_pytree", "loss_timeseries_pytree"):
+                add(ent, fact, "-", "valid")
+                for c in ("one_leaf_wrong_rank", "other_leaf_wrong_rank", "all_leaves_wrong_rank", "one_leaf_wrong_length", "one_leaf_scalar"):
+                    add(ent, fact, "std", c)
         add("loss_timeseries", fact, "posterior", "filter_marginals")
         add("loss_timeseries", fact, "posterior", "smoothing_solution_not_extracted")
         # residual error estimate with a jet-lifted (differently shaped) constraint
@@ -240,6 +247,34 @@ def _execute(row):
                    "shape_d_1": jnp.asarray([[0.1], [0.2]]), "shape_d_plus_1": 0.1 * jnp.ones((D + 1,)),
                    "list_wrapped": [jnp.asarray(0.1) if fact == "isotropic" else jnp.asarray([0.1, 0.2])]}[c]
         val = probdiffeq.loss_lml_terminal_values()(jnp.asarray([0.7, 0.4]), marginals=marg, std=std)
+        return (np.asarray(val),)
+    if entry in ("loss_terminal_pytree", "loss_timeseries_pytree"):
+        ssm = _ssm(fact)
+        u0 = {"x": jnp.asarray([1.0, 0.5]), "v": jnp.asarray([0.3, -0.2, 0.8])}
+        ode = probdiffeq.ode(lambda u, *, t: {"x": -u["x"] + 0.1 * jnp.sin(t), "v": -0.5 * u["v"]}, jacobian=probdiffeq.jacobian_materialize())
+        tc, _ = probdiffeq.jetexpand_ode_padded_scan(num=2)(ode, (u0,), t=0.0)
+        prior = ssm.prior_wiener_integrated(tc)
+        cst = ssm.constraint_ode_ts0(ode)
+        ts_mode = entry == "loss_timeseries_pytree"
+        strat = probdiffeq.strategy_smoother_fixedinterval() if ts_mode else probdiffeq.strategy_filter()
+        sol = ivpsolve.solve_fixed_grid(solver=probdiffeq.solver(strategy=strat, constraint=cst))(prior, grid=jnp.linspace(0.0, 0.4, 5))
+        T = 5
+        lead = (T,) if ts_mode else ()
+        std = {"x": 0.1 * jnp.ones((*lead, 2)), "v": 0.2 * jnp.ones((*lead, 3))}
+        if field == "std":
+            std = {
+                "one_leaf_wrong_rank": {"x": 0.1 * jnp.ones((*lead, 2, 1)), "v": std["v"]},
+                "other_leaf_wrong_rank": {"x": std["x"], "v": 0.2 * jnp.ones((*lead, 1, 3))},
+                "all_leaves_wrong_rank": {"x": 0.1 * jnp.ones((*lead, 2, 1)), "v": 0.2 * jnp.ones((*lead, 3, 1))},
+                "one_leaf_wrong_length": {"x": std["x"], "v": 0.2 * jnp.ones((*lead, 4))},
+                "one_leaf_scalar": {"x": std["x"], "v": jnp.asarray(0.2)},
+            }[c]
+        if ts_mode:
+            data = {"x": 0.5 * jnp.ones((T, 2)), "v": 0.1 * jnp.ones((T, 3))}
+            val = probdiffeq.loss_lml_timeseries()(data, posterior=sol.solution_full.posterior, std=std)
+        else:
+            marg = jax.tree.map(lambda s_: s_[-1], sol.u)
+            val = probdiffeq.loss_lml_terminal_values()({"x": jnp.asarray([0.7, 0.4]), "v": jnp.asarray([0.1, 0.0, 0.3])}, marginals=marg, std=std)
         return (np.asarray(val),)
     if entry == "loss_timeseries":
         ssm = _ssm(fact)
